@@ -1,2 +1,111 @@
-/- Model driver for C16 (line protocol). Stub until the property's model lands. -/
-def main : IO Unit := pure ()
+/-
+  Model driver for C16 (line protocol, see harness/c16_main.c and tools/props/c16.py). Imports Model + Gen only.
+
+    dec <kind> <flags> <memlimit> <fin> <hex> <mode> <table entries…>
+        kind  alone | lzip | auto | xz
+        mode  T = the LZMA1 payload decoder is the table of verdicts of the REAL raw decoder given on the line
+                  (P:<offset>:<lc>:<lp>:<pb>:<dict>:<usize|u>:<allow_eopm>:<ret>:<consumed>:<outhex>)
+              M = the LZMA1 payload decoder is Model/Lzma.lean (`lzmaDecode`)
+        one .xz Stream from the front of the input at <offset> is always a table entry
+                  (X:<offset>:<ret>:<consumed>:<events|->:<outhex>), verdicts of lzma_stream_decoder without CONCATENATED
+    -> "<ret> <total_in> <events> <memusage if MEMLIMIT_ERROR else 0> <outhex>", `Ret.ok` printed as 10 (LZMA_BUF_ERROR:
+       what lzma_code reports when the decoder wants more input). A table miss prints ret 12.
+-/
+import XzVerif.Model.Proto
+import XzVerif.Model.Alone
+import XzVerif.Model.Lzip
+import XzVerif.Model.XzConcat
+import XzVerif.Model.Auto
+import XzVerif.Model.Lzma
+import XzVerif.Gen.C16
+open XzVerif XzVerif.Proto XzVerif.Alone
+
+structure PEntry where
+  off : Nat
+  opts : LzmaOpts
+  res : PRes
+
+structure XEntry where
+  off : Nat
+  res : DRes
+
+def parseRet (s : String) : Option Ret := do
+  let n ← s.toNat?
+  -- the harness reports "wants more input" as LZMA_BUF_ERROR (10); the models call it `ok`
+  if n = 10 then some .ok else Ret.ofNat? n
+
+def parseEvents (s : String) : Option (List Ret) :=
+  if s == "-" then some [] else (s.splitOn ",").mapM fun t => t.toNat? >>= Ret.ofNat?
+
+def parseEntry (tok : String) : Option (PEntry ⊕ XEntry) :=
+  match tok.splitOn ":" with
+  | ["P", off, lc, lp, pb, dict, us, eopm, ret, cons, hx] => do
+    let off ← off.toNat?
+    let lc ← lc.toNat?
+    let lp ← lp.toNat?
+    let pb ← pb.toNat?
+    let dict ← dict.toNat?
+    let us ← (if us == "u" then some none else us.toNat?.map some)
+    let eopm ← eopm.toNat?
+    let ret ← parseRet ret
+    let cons ← cons.toNat?
+    let out ← bytesOfHex hx
+    pure (.inl { off := off, opts := { lc := lc, lp := lp, pb := pb, dictSize := dict, uncomp := us, allowEopm := eopm != 0 },
+                 res := { ret := ret, out := out, consumed := cons } })
+  | ["X", off, ret, cons, ev, hx] => do
+    let off ← off.toNat?
+    let ret ← parseRet ret
+    let cons ← cons.toNat?
+    let ev ← parseEvents ev
+    let out ← bytesOfHex hx
+    pure (.inr { off := off, res := { ret := ret, out := out, consumed := cons, events := ev } })
+  | _ => none
+
+def missP : PRes := { ret := .seekNeeded, out := [], consumed := 0 }
+def missX : DRes := { ret := .seekNeeded, out := [], consumed := 0 }
+
+def tablePayload (total : Nat) (tab : List PEntry) : Payload := fun o rest =>
+  match tab.find? (fun e => e.off == total - rest.length && e.opts == o) with
+  | some e => e.res
+  | none => missP
+
+def modelPayload : Payload := fun o rest =>
+  let r := Lzma.lzmaDecode { lc := o.lc, lp := o.lp, pb := o.pb } o.dictSize o.uncomp o.allowEopm rest
+  { ret := r.ret, out := r.out, consumed := r.consumed }
+
+def tableOne (total : Nat) (tab : List XEntry) : XzConcat.One := fun rest =>
+  match tab.find? (fun e => e.off == total - rest.length) with
+  | some e => e.res
+  | none => missX
+
+def showEvents (ev : List Ret) : String :=
+  if ev.isEmpty then "-" else ",".intercalate (ev.map fun r => toString r.toNat)
+
+def showRes (r : DRes) : String :=
+  let ret := if r.ret == .ok then 10 else r.ret.toNat
+  s!"{ret} {r.consumed} {showEvents r.events} {r.mem} {hexOfBytes r.out}"
+
+def step (_ : Unit) (ws : List String) : Unit × String :=
+  match ws with
+  | "dec" :: kind :: flags :: memlimit :: fin :: hx :: mode :: tabs =>
+    match flags.toNat?, memlimit.toNat?, fin.toNat?, bytesOfHex hx, tabs.mapM parseEntry with
+    | some fl, some ml, some fin, some inp, some entries =>
+      let ptab := entries.filterMap fun e => match e with | .inl p => some p | .inr _ => none
+      let xtab := entries.filterMap fun e => match e with | .inr x => some x | .inl _ => none
+      let total := inp.length
+      let P : Payload := if mode == "M" then modelPayload else tablePayload total ptab
+      let X1 := tableOne total xtab
+      let f := Auto.Flags.ofNat fl
+      let memK := Gen.C16.memK
+      let fin := fin != 0
+      let xz : Auto.Xz := XzConcat.xzDecode X1 { concatenated := f.concatenated, finish := fin }
+      let acfg : Auto.Cfg := { flags := f, finish := fin, memlimit := ml, memK := memK }
+      if kind == "alone" then ((), showRes (aloneDecode P { picky := false, memlimit := ml, memK := memK } inp))
+      else if kind == "lzip" then ((), showRes (Lzip.lzipDecode P (Auto.lzipCfg acfg) inp))
+      else if kind == "auto" then ((), showRes (Auto.autoDecode P xz acfg inp))
+      else if kind == "xz" then ((), showRes (xz inp))
+      else ((), "bad-op")
+    | _, _, _, _, _ => ((), "bad-op")
+  | _ => ((), "bad-op")
+
+def main : IO Unit := runLoop step ()
